@@ -414,6 +414,62 @@ def check_cg_history(case):
     return out
 
 
+def plain_history_run(prev_json, sc_json, engine):
+    """Runs in a pristine process: optional previous simulations (a list of script descriptions), then the run under test."""
+    import json
+    from strengths.simulate import simulate_script
+    for psc in (json.loads(prev_json) or []):
+        simulate_script(models.build_script(psc), eng.make_engine(engine))
+    o = simulate_script(models.build_script(json.loads(sc_json)), eng.make_engine(engine))
+    return (o.t.value.tobytes(), o.data.value.tobytes())
+
+
+# (system units, script units); the last two keep "molecule" on both sides: the only ones used with the stochastic engines
+# (a state of a few units of a molar quantity is an astronomic number of molecules)
+UNIT_PAIRS = [(["µm", "s", "molecule"], ["nm", "ms", "µmol"]), (["µm", "s", "molecule"], ["mm", "min", "mol"]),
+              (["nm", "ms", "nmol"], ["µm", "s", "molecule"]), (["dm", "h", "mol"], ["nm", "µs", "molecule"]),
+              (["µm", "s", "molecule"], ["nm", "ms", "molecule"]), (["mm", "min", "molecule"], ["µm", "s", "molecule"])]
+
+
+def check_units_history(case):
+    """A run whose script and system use different units systems, as the first simulation of a process and after simulations
+    that needed the OPPOSITE conversions (system and script units exchanged) or the same ones: bit-identical."""
+    import json
+    import os
+    out = []
+    engine, gtype = case["engine"], case["gtype"]
+    su, cu = UNIT_PAIRS[case["pair"]]
+    try:
+        sc = script_spec(engine, gtype, "on_t_sample", 4)
+        sc["system"]["units"] = list(su)
+        sc["units"] = list(cu)
+        rev = script_spec(engine, gtype, "on_iteration", 3, seed=5)
+        rev["system"]["units"] = list(cu)
+        rev["units"] = list(su)
+        prevs = {"opposite": [rev], "same": [sc], "opposite-then-same": [rev, sc]}[case["prev"]]
+        z = _PRIS.get(os.getpid())
+        if z is None:
+            _PRIS.clear()
+            z = pristine.Pristine()
+            _PRIS[os.getpid()] = z
+        key = ("plain", json.dumps(sc, sort_keys=True), engine)
+        if key not in _BASE:
+            _BASE[key] = z.call("checks.c08_purity", "plain_history_run", "null", key[1], engine)
+        base = _BASE[key]
+        if base[0] != "ok":
+            return [("C08:baseline:%s" % base[0], str(base[1])[-600:])]
+        got = z.call("checks.c08_purity", "plain_history_run", json.dumps(prevs), key[1], engine)
+        if got[0] != "ok":
+            return [("C08:units-history:%s:%s" % (engine, got[0]), str(got[1])[-800:])]
+        if tuple(got[1]) != tuple(base[1]):
+            out.append(("C08:units-history:%s:trajectory-differs-from-baseline" % engine,
+                        "system units %r, script units %r on a %s after %s conversions earlier in the process: trajectory differs "
+                        "from the one of a pristine process" % (su, cu, gtype, case["prev"])))
+    except Exception as ex:
+        out.append(("C08:units-history:unexpected-exception", "%s: %s" % (type(ex).__name__, ex)))
+    return out
+
+
 def check_seed(case):
     out = []
     engine, gtype, policy = case["engine"], case["gtype"], case["policy"]
@@ -580,6 +636,11 @@ def check_edited(case):
         if gtype == "graph":
             [(e_.surface, e_.distance) for e_ in sp.edges]
             sp.get_neighbors(0)
+        E = None
+        if case.get("rerun"):
+            # the script object has already been run once on the engine object that will run it again after the edit
+            E = eng.make_engine(engine)
+            simulate_script(script, E)
         if what == "volume":
             if gtype == "graph":
                 sp.nodes[1].volume = 5.0
@@ -599,6 +660,16 @@ def check_edited(case):
         elif what == "kf":
             net.reactions[0].kf = 0.3
             sc2["system"]["reactions"][0]["kf"] = 0.3
+        elif what == "time_step":
+            script.time_step = 0.125
+            sc2["time_step"] = 0.125
+        elif what == "t_sample":
+            ts = [0, 0.02, 0.3] if engine == "gillespie" else [0, 0.2, 0.6]
+            script.t_sample = list(ts)
+            sc2["t_sample"] = list(ts)
+        elif what == "state":
+            script.system.set_state(0, 0, 5.0)
+            sc2["system"]["state"][0] = 5.0
         elif what == "callers-system":
             # the script was built FROM a system object the caller keeps using: editing that object afterwards must not
             # reach the script (sc2 stays the original description)
@@ -610,10 +681,10 @@ def check_edited(case):
         if what in ("volume",):
             # the state was given explicitly, so only the geometry differs between the two descriptions
             pass
-        a = simulate_script(script, eng.make_engine(engine))
+        a = simulate_script(script, E if E is not None else eng.make_engine(engine))
         b = simulate_script(direct, eng.make_engine(engine))
         if (a.t.value.tobytes(), a.data.value.tobytes()) != (b.t.value.tobytes(), b.data.value.tobytes()):
-            out.append(("C08:edited-script:%s:%s" % (what, engine),
+            out.append(("C08:edited-script:%s%s:%s" % (what, ":rerun-on-the-same-engine-object" if E is not None else "", engine),
                         "%s %s: the script edited in place (%s) and the script written directly with the edited value give different trajectories"
                         % (engine, gtype, what)))
     except Exception as ex:
@@ -664,6 +735,8 @@ def check_case(case):
         return check_edited(case)
     if case["sub"] == "cg-history":
         return check_cg_history(case)
+    if case["sub"] == "units-history":
+        return check_units_history(case)
     return check_seed(case)
 
 
@@ -780,6 +853,9 @@ def gen_cases(tier, seed0):
     cases += stored
     edited = [{"sub": "edited", "engine": e, "gtype": g, "edit": w} for (e, g) in KINDS for w in ("volume", "edge", "D", "kf", "callers-system")
               if not (w == "edge" and g != "graph")]
+    edited += [{"sub": "edited", "engine": e, "gtype": g, "edit": w, "rerun": rr} for (e, g) in KINDS
+               for w in ("time_step", "t_sample", "state", "D", "kf", "volume") for rr in (False, True)
+               if not (w == "time_step" and e == "gillespie") and not (rr is False and w in ("D", "kf", "volume"))]
     cases += edited
     wrap = []
     for (e, g) in KINDS:
@@ -795,6 +871,9 @@ def gen_cases(tier, seed0):
     cases += wrap
     cgh = [{"sub": "cg-history", "engine": e, "map": m, "prev": pv} for e in ("euler", "tauleap", "gillespie") for m in CG_MAPS for pv in CG_PREVS]
     cases += cgh
+    uh = [{"sub": "units-history", "engine": e, "gtype": g, "pair": pi, "prev": pv} for (e, g) in KINDS for pi in range(len(UNIT_PAIRS))
+          for pv in ("opposite", "same", "opposite-then-same") if e == "euler" or pi >= 4]
+    cases += uh
     sizes = [("driver schedules: all %d ways to consume a %d-iteration run with iterate / iterate_n(1..3) / run(0) / clock-scripted "
               "run slices of 1..3 iterations / run-to-completion x %d scripts (engines x space types x policies)" % (nsch, n, len(scripts)),
               nsch * len(scripts)),
@@ -808,12 +887,14 @@ def gen_cases(tier, seed0):
              ("explicitly given seeds {0, 1, 2^31-1, 2^31, 2^32-1} x 6 kinds: seed kept, same description twice => same trajectory", len(given)),
              ("stored scripts: 6 kinds x policies x 7 in-place edits (system state / chemostat / raw array item / time step / request list / seed / none) of "
               "{the caller's script, the stored script} after the run: the other one still reproduces the trajectory", len(stored)),
-             ("scripts edited in place before the run (cell / node volume, edge surface and distance, D, kf) vs the same script written directly: 6 kinds", len(edited)),
+             ("scripts edited in place before the run (cell / node volume, edge surface and distance, D, kf, time step, request list, state; also after a first run of the same script object on the same engine object) vs the same script written directly: 6 kinds", len(edited)),
              ("simulate() wrapper: 6 kinds x 3 policies x 3 units systems x 3 keyword orders (bare numbers): same trajectory as "
               "simulate_script(RDScript(same arguments))", len(wrap)),
              ("coarse-grained route histories: 3 engines x 3 index maps (pairs / identity / one group + unmapped cell) on a 2x2x1 grid x "
               "(no previous run | previous coarse-grained run with another cell volume / units system / environment map / grid "
-              "dimensions / index map), 2 repetitions: same trajectory as in a pristine process", len(cgh))]
+              "dimensions / index map), 2 repetitions: same trajectory as in a pristine process", len(cgh)),
+             ("units histories: (Euler x 6 | stochastic engines x 2 molecule-only) (system units, script units) pairs x 2 space types x (earlier runs needing the opposite conversions / the "
+              "same / both), each history in its own pristine process: same trajectory as the first run of a process", len(uh))]
     return cases, sizes
 
 
